@@ -211,6 +211,11 @@ def _t2_world(seed, n):
     if r.random() < 0.5 and n >= 2:          # duplicate vectors: exact score ties broken by id
         eps[1]["vec_full"] = eps[0]["vec_full"]
         eps[1]["text"] = eps[0]["text"]
+    if r.random() < 0.3 and n >= 3:          # the index appends: the same id may be stored twice (two versions of one memory)
+        j = r.randrange(1, n)
+        eps[j]["id"] = eps[0]["id"]
+    if r.random() < 0.12 and n >= 2:         # a memory whose stored vector has another dimension: the search fails on it
+        eps[-1]["vec_full"] = list(eps[-1]["vec_full"])[:-1]
     return eps
 
 
@@ -270,14 +275,22 @@ def t2_case(case) -> List[Tuple[str, str]]:
             try:
                 with E.patched_attr(T2C, run_parallel=spy_rp):
                     res = t2_semantic(ctx_for(cfg), st, text, t1)
-            except Exception as e:
-                return [("T2ParEqSeq", f"seed={seed} n={n} workers={workers}: t2_semantic raised {type(e).__name__}: {e} (parallel={cfg is not None and 'perf' in cfg and cfg['perf'].get('enabled')})")]
+            except Exception as e:      # noqa: BLE001 - a failing search is an outcome too: both paths must fail, or neither
+                res = ("raised", type(e).__name__, str(e)[:160])
             finally:
                 sys.setswitchinterval(old)
             outs.append(res)
     finally:
         sys.setswitchinterval(old)
     a, b = outs
+    if isinstance(a, tuple) or isinstance(b, tuple):
+        if isinstance(a, tuple) and isinstance(b, tuple):
+            return [] if fanouts else []
+        which = "sequential" if isinstance(a, tuple) else "parallel"
+        exc = a if isinstance(a, tuple) else b
+        other = b if isinstance(a, tuple) else a
+        return [("T2ParEqSeq", f"seed={seed} n={n} workers={workers}: the {which} path fails with {exc[1]}: {exc[2]} while the other path returns "
+                               f"{[str(x.id) for x in other.retrieved]} (a failing search must fail on both paths)")]
     ra = [(str(x.id), float(x.score)) for x in a.retrieved]
     rb = [(str(x.id), float(x.score)) for x in b.retrieved]
     fails = []
@@ -353,7 +366,10 @@ def check(run) -> None:
             if clause == "__no_fanout__":
                 run.ok("T2ParEqSeq.fanout_not_taken")
                 continue
-            run.fail(clause, {"clause": clause, "stage": "t2"}, c, msg, replay={"t2": c})
+            sig = {"clause": clause, "stage": "t2"}
+            if "a failing search must fail on both paths" in msg:
+                sig["what"] = "sequential-raises-parallel-returns" if "the sequential path fails" in msg else "parallel-raises-sequential-returns"
+            run.fail(clause, sig, c, msg, replay={"t2": c})
     if run.clauses.get("T2ParEqSeq.fanout_taken", 0) == 0:
         from ..tlc import TLCError
         raise TLCError("C09: no T2 case exercised the shard fan-out (vacuous)")
